@@ -12,7 +12,7 @@ import sys
 import time
 
 VERIF = os.path.dirname(os.path.dirname(os.path.abspath(__file__)))
-WT = "/tmp/fv_mut_wt"
+WT = os.environ.get("MUT_WT", "/tmp/fv_mut_wt")
 PY = "py/formak/python.py"
 CPP = "py/formak/cpp.py"
 FR = "py/formak/ast_fragments.py"
@@ -37,7 +37,7 @@ M = [
     ("c03-control-jacobian-stride", PY, "                result[row, col] = computed_jacobian[row * self.control_size + col]", "                result[row, col] = computed_jacobian[(row * self.state_size + col) % max(1, len(computed_jacobian))]", ["C03"]),
     ("c04-drop-control-noise-term", PY, "        next_covariance = next_state_covariance + next_control_covariance\n", "        next_covariance = next_state_covariance\n", ["C04"]),
     ("c04-GtPG", PY, "            G_t, np.matmul(covariance.data, G_t.transpose())\n", "            G_t.transpose(), np.matmul(covariance.data, G_t)\n", ["C04"]),
-    ("c04-noise-diagonal-only-last", PY, "                process_noise_matrix[iIdx, jIdx] = value\n                process_noise_matrix[jIdx, iIdx] = value", "                process_noise_matrix[jIdx, jIdx] = value if iIdx == jIdx else process_noise_matrix[jIdx, jIdx]\n                process_noise_matrix[iIdx, iIdx] = process_noise_matrix[iIdx, iIdx]", ["C04"]),
+    ("c04-noise-on-mirrored-control", PY, "                process_noise_matrix[iIdx, jIdx] = value\n                process_noise_matrix[jIdx, iIdx] = value", "                process_noise_matrix[-1 - iIdx, -1 - jIdx] = value\n                process_noise_matrix[-1 - jIdx, -1 - iIdx] = value", ["C04"]),
     ("c05-plus-KHP", PY, "        next_covariance = covariance.data - np.matmul(\n            K_t, np.matmul(H_t, covariance.data)", "        next_covariance = covariance.data + np.matmul(\n            K_t, np.matmul(H_t, covariance.data)", ["C05"]),
     ("c05-gain-without-Sinv", PY, "            covariance.data, np.matmul(H_t.transpose(), S_inv)\n", "            covariance.data, np.matmul(H_t.transpose(), np.eye(len(S_inv)))\n", ["C05"]),
     ("c05-innovation-sign", PY, "            sensor_reading.data - expected_reading.data\n", "            expected_reading.data - sensor_reading.data\n", ["C05"]),
@@ -66,7 +66,7 @@ M = [
     ("c14-drop-disjoint-check", UIM, "        if not set(self.state).isdisjoint(set(self.control)):", "        if False and not set(self.state).isdisjoint(set(self.control)):", ["C14"]),
     ("c14-drop-process-noise-key-check", CM, "        if key not in allowed_keys:\n            render", "        if False and key not in allowed_keys:\n            render", ["C14"]),
     ("c14-drop-sensor-free-symbol-check", CM, "                if not set(model.free_symbols).issubset(allowed_symbols):", "                if False and not set(model.free_symbols).issubset(allowed_symbols):", ["C14"]),
-    ("c14-drop-sensor-noise-key-match", PY, "        assert set(sensor_models.keys()) == set(sensor_noises.keys())\n", "", ["C14"]),
+    ("c14-drop-sensor-noise-key-and-size-match", PY, "        assert set(sensor_models.keys()) == set(sensor_noises.keys())\n        assert isinstance(sensor_noises, dict)\n        assert len(sensor_noises) == len(sensor_models)\n", "        assert isinstance(sensor_noises, dict)\n", ["C14"]),
     ("c15-cpp-sensorlist-unsorted-from-set", CPP, "        self.sensorlist = sorted(\n            [(k, v, sensor_noises[k]) for k, v in sensor_models.items()]\n        )", "        self.sensorlist = [\n            (k, sensor_models[k], sensor_noises[k]) for k in set(sensor_models.keys())\n        ]", ["C15"]),
     ("c15-py-arglist-unsorted", PY, "        self.arglist_state = sorted(list(symbolic_model.state), key=lambda x: x.name)\n        self.arglist_calibration = sorted(\n            list(symbolic_model.calibration), key=lambda x: x.name\n        )\n        self.arglist_control = sorted(\n            list(symbolic_model.control), key=lambda x: x.name\n        )\n        self.arglist = (", "        self.arglist_state = sorted(list(symbolic_model.state), key=lambda x: x.name)\n        self.arglist_calibration = list(symbolic_model.calibration)\n        self.arglist_control = sorted(\n            list(symbolic_model.control), key=lambda x: x.name\n        )\n        self.arglist = (", ["C15", "C13"]),
     ("c16-slice-from-control-plus-one", PY, "                X[idx, self.model_.control_size :],", "                X[idx, self.model_.control_size + (1 if self.model_.control_size > 1 else 0) :],", ["C16"]),
